@@ -24,7 +24,8 @@ TEXTS = {
                     "gram iterator starts at width 1, index writer/reader share one gram generator, candidate cap >= limit, "
                     "record side clipped to the typed length for an unfinished word. A violated obligation names the "
                     "gate/constructor and the prefix query that is lost; stemmer/scan-order behaviour is not decided."
-                    " Also: scratch state of the index and the matcher is reset before it is read (R03.h) and the Jaccard pre-filter compares deduplicated sets (R03.i).",
+                    " Also: scratch state of the index and the matcher is reset before it is read (R03.h) and the Jaccard pre-filter compares deduplicated sets (R03.i)."
+                    " Round 8: index record count / every record indexed / every word's grams (R03.e/d), language tables closed under case and letters-only (R03.j).",
             "note": NOTE},
     "C04": {"technique": "static analysis: gate/cost constants by data-flow role in MIR, worst-case obligations in IEEE doubles, region-wise symbolic evaluation of the length-gate formula (A11)",
             "text": "Decides necessary constants only (n=5 worst cases): length gate accepts 1-5/6, Jaccard gate accepts 1/2, "
@@ -35,12 +36,14 @@ TEXTS = {
     "C05": {"technique": "static analysis: integer gate |qslice-rslice| located by data-flow, polarity from CFG reachability of new_pair",
             "text": "Decides one clause: the prefix-pair length tolerance is <= 1, so a highlighted span cannot exceed the "
                     "typed stretch by more than one character. The 'no unrelated hits' and exact-prefix clauses are not decided."
-                    " Also (R05.e): the drawn span is [word.slice.0 + subslice.0, word.slice.0 + subslice.1) of the word the match belongs to.",
+                    " Also (R05.e): the drawn span is [word.slice.0 + subslice.0, word.slice.0 + subslice.1) of the word the match belongs to."
+                    " Also (R05.f): lower-casing maps one character to one character.",
             "note": NOTE},
     "C14": {"technique": "static analysis: gate constants and per-class cost table read from MIR (match arms), class fallback decided as a decision table by abstract interpretation (A13), region-wise length-gate formula (A11)",
             "text": "Decides necessary constants/shapes only (L=3 worst case): length gate accepts 1/4, cost(NotAlpha)/4 passes the "
                     "DL gate, Jaccard gate accepts 1/2, non-alphabetic characters without a language class fall back to NotAlpha. "
-                    "Join/split offset arithmetic is not decided.",
+                    "Join/split offset arithmetic is not decided."
+                    " Also (R14.i): no word is passed over by the gram generator, every posting counted.",
             "note": NOTE},
     "C16": {"technique": "static analysis: cost-constant provenance into the DP recurrence, reset-before-read on scratch cells, dominance rules on the matrix",
             "text": "Decides structural clauses: every edit cost reaching the recurrence is 0.5 or 1.0 with zero only under "
@@ -78,7 +81,8 @@ TEXTS = {
             "text": "Decides structural clauses: count>0 filter before the cap, cap = size*10 ordered by count descending, the "
                     "shared gram generator sorts+dedups, positions are enumerate indices, counters cleared and resized to the "
                     "record count which grows by one per add, only Store::add feeds the index after record.ix := next_ix. "
-                    "Gram-set contents are not decided.",
+                    "Gram-set contents are not decided."
+                    " Also: every posting of every query gram counted in counters wider than 16 bits (R18.h); every stored record handed to the index (R18.f); every word reaches the gram iterator (R18.c).",
             "note": NOTE},
     "C20": {"technique": "static analysis: cross-body provenance through closure captures and thread-local registries, pairing and who-may-write rules",
             "text": "Decides structural clauses: both registries are updated together under the caller's id, every API function "
@@ -92,14 +96,16 @@ TEXTS = {
             "text": "Decides structural clauses: truncate(limit) only directly after a sort, final sort->truncate->reverse before the "
                     "first pop, limit = self.limit at every selection, pipeline order score->filter->selection->highlight, candidate "
                     "cap >= 10x over count>0, positions map to self.records[ix], scratch reset-before-read, no cross-record state on "
-                    "the per-record path. Equality with the single-record verdict as a runtime value is not decided.",
+                    "the per-record path. Equality with the single-record verdict as a runtime value is not decided."
+                    " Also: set_limit stores its parameter unchanged (R06.f); the compared rating keeps its full width (R06.g).",
             "note": NOTE},
     "C07": {"technique": "static analysis: comparator key/direction extraction (A7), confinement of insertion position, score-slot table",
             "text": "Decides structural clauses: all comparators handed to selections are lexicographic compositions of Ord::cmp on the "
                     "same integer projection of both arguments (total pre-orders); insertion position is never read on the ranking "
                     "path; the rating is a score component written once; selection forwards argument order. Order equality across "
                     "permutations as a runtime value is not decided."
-                    " Also (R07.d): the memoised empty-query ranking is reset on every path that changes records or limit.",
+                    " Also (R07.d): the memoised empty-query ranking is reset on every path that changes records or limit."
+                    " Also (R07.e): index record count, counting loop and feeding discipline (which records are candidates does not depend on insertion order).",
             "note": NOTE},
     "C08": {"technique": "static analysis: score-slot table from MIR (variant discriminants vs writer functions), sign/direction extraction, confinement of the rating, enum-arm tables",
             "text": "Decides structural clauses: each match-quality component is ranked before the rating, directions/signs as "
@@ -111,7 +117,8 @@ TEXTS = {
             "text": "Decides structural clauses: the empty-query selection is exactly (rating desc, normalised title asc) bounded by "
                     "self.limit, the non-index branch is taken iff the query has no word, the empty query passes the filter, the "
                     "memoised ranking is coherent with records and limit, and the rating is compared before word/char counts. "
-                    "Found defect D2 (fixed).",
+                    "Found defect D2 (fixed)."
+                    " Also: rating compared at full width (R12.e), NUL sanitiser on every return of the title builder (R12.g), table entries are letters/marks so a separator-only query stays empty (R12.h).",
             "note": NOTE},
     "C02": {"technique": "static analysis: path enumeration of the title builder (tiling + sanitiser typestate), id/marker provenance chains, Unicode table cross-check",
             "text": "Decides structural clauses: every return path yields the one String that passed retain(ch != NUL) after its last "
@@ -123,7 +130,8 @@ TEXTS = {
             "text": "Decides structural clauses: marker emission is left/one slice/right on every path and ends closed; spans start at "
                     "the word start and are looked up by word offset; new_pair is guarded by slice <= len(word); the guard of "
                     "WordMatch::split implies a non-empty second half; empty query passes, no match => no hit; marker order "
-                    "provenance; record and query tokenisers split alike. Typo-budget split arithmetic is not decided.",
+                    "provenance; record and query tokenisers split alike. Typo-budget split arithmetic is not decided."
+                    " Also (R09.i): lower-casing and normalisation keep original and normalised text aligned.",
             "note": NOTE},
     "C19": {"technique": "static analysis: bounds obligations per unsafe call site discharged in a linear-inequality (zone-like) domain from MIR facts and four checked lemmas",
             "category": "proof",
@@ -141,6 +149,7 @@ TEXTS = {
                     "a difference of tokeniser geometry fields assumed by C15; no float-derived unsigned subtraction (found D1, "
                     "fixed); every reachable explicit panic is a registry-contract check, a debug assertion whose condition is "
                     "implied by another rule, or discharged; unchecked accesses as in C19. Termination, overflow near usize::MAX "
-                    "and slice-index panics beyond these rules are not decided.",
+                    "and slice-index panics beyond these rules are not decided."
+                    " Also (R01.h): no checked arithmetic on, and no narrowing cast to, 8/16-bit integers on the reachable paths; equal-length invariant of unicode_reduce (R01.c).",
             "note": NOTE},
 }
